@@ -166,9 +166,9 @@ Key(v) == CASE KeyMode = "legacy" -> LegacyKey(v)
 
 \* TLC evaluates these tables once (string concatenation is slow); the actions
 \* below only look them up
-\* (TabDom is overridden in the cfg files by the family actually used)
-AllVariants == UNION {VariantsOf(b) : b \in DOMAIN Base}
-TabDom == AllVariants
+\* (TabDom is overridden in the cfg files by the family actually used; TLC
+\* evaluates constant definitions eagerly, so there is no "all variants" default)
+TabDom == {}
 RenderTab == [v \in TabDom |-> Render(v)]
 MeaningTab == [v \in TabDom |-> Meaning(v)]
 KeyTab == [v \in TabDom |-> Key(v)]
